@@ -100,6 +100,7 @@ type AV struct {
 	Fn   *ssa.Function // KFunc
 	Bind []AV
 	Src  *cellKey // where a scalar was loaded from (for refinement), nil if none
+	Expr string   // canonical pure expression over versioned strong cells this value was computed from ("" = none)
 	In   *AV      // KIface: wrapped dynamic value (may be nil)
 }
 
